@@ -6,6 +6,7 @@ import (
 	"fmt"
 	"os"
 	"runtime/debug"
+	"strings"
 	"sync/atomic"
 	"time"
 
@@ -31,7 +32,14 @@ func genFaultWorkload(r *rng) (Config, []faultRound) {
 		cfg.BufPages = 1
 	}
 	cfg.CompactionSync = r.chance(1, 2)
-	g := &gen{r: r, o: genOpts{mergeW: 0}, universe: baseUniverse}
+	cfg.SyncAfterBytes = []int{0, -1, 4096}[r.intn(3)]
+	// Merge operands (a round executed twice would fold them twice) and, in half of the
+	// workloads, child collections (their segments are written by recursive calls of their own)
+	o := genOpts{mergeW: 15}
+	if r.chance(1, 2) {
+		o.childPct = 40
+	}
+	g := &gen{r: r, o: o, universe: baseUniverse}
 	var rounds []faultRound
 	n := 3 + r.intn(3)
 	// half of the workloads are shaped for leveled (partial) compaction: one big first segment,
@@ -41,7 +49,8 @@ func genFaultWorkload(r *rng) (Config, []faultRound) {
 		cfg.PctN, cfg.PctD = 1, 1
 	}
 	for i := 0; i < n; i++ {
-		b := &tbatch{ops: g.ops(5)}
+		b := g.batch(0)
+		b.alloc = false
 		if len(b.ops) == 0 {
 			b.ops = []bop{{'s', []byte("k0"), g.value()}}
 		}
@@ -60,14 +69,38 @@ func genFaultWorkload(r *rng) (Config, []faultRound) {
 	return cfg, rounds
 }
 
-func applyRef(ref map[string][]byte, b *tbatch) {
+// applyRef applies a batch (with child collections) to the reference content; keys of child
+// collections are prefixed with their path ("c1/", "c1/d1/"); Merge follows the harness operator.
+func applyRef(ref map[string][]byte, b *tbatch) { applyRefAt(ref, "", b) }
+
+func applyRefAt(ref map[string][]byte, prefix string, b *tbatch) {
 	for _, o := range b.ops {
+		k := prefix + string(o.k)
 		switch o.op {
 		case 's':
-			ref[string(o.k)] = o.v
+			ref[k] = o.v
 		case 'd':
-			delete(ref, string(o.k))
+			delete(ref, k)
+		case 'm':
+			cur, ok := ref[k]
+			if len(o.v) == 1 && o.v[0] == '=' && ok {
+				continue
+			}
+			n := append(append(append([]byte{}, cur...), ':'), o.v...)
+			ref[k] = n
 		}
+	}
+	for _, kd := range b.kids {
+		p := prefix + kd.name + "/"
+		if kd.del {
+			for k := range ref {
+				if strings.HasPrefix(k, p) {
+					delete(ref, k)
+				}
+			}
+			continue
+		}
+		applyRefAt(ref, p, kd.b)
 	}
 }
 
@@ -79,28 +112,47 @@ func snapContent(ss moss.Snapshot) (m map[string][]byte, err error) {
 		}
 	}()
 	m = map[string][]byte{}
+	err = snapContentAt(ss, "", m, 0)
+	return m, err
+}
+
+func snapContentAt(ss moss.Snapshot, prefix string, m map[string][]byte, depth int) error {
 	it, e := ss.StartIterator(nil, nil, moss.IteratorOptions{})
 	if e != nil {
-		return nil, e
+		return e
 	}
-	if it == nil {
-		return m, nil
+	if it != nil {
+		for {
+			k, v, e := it.Current()
+			if e == moss.ErrIteratorDone {
+				break
+			}
+			if e != nil {
+				it.Close()
+				return e
+			}
+			m[prefix+string(k)] = cp(v)
+			if it.Next() != nil {
+				break
+			}
+		}
+		it.Close()
 	}
-	defer it.Close()
-	for {
-		k, v, e := it.Current()
-		if e == moss.ErrIteratorDone {
-			break
-		}
-		if e != nil {
-			return nil, e
-		}
-		m[string(k)] = cp(v)
-		if it.Next() != nil {
-			break
+	if depth < 3 {
+		names, _ := ss.ChildCollectionNames()
+		for _, n := range names {
+			cs, e := ss.ChildCollectionSnapshot(n)
+			if e != nil || cs == nil {
+				continue
+			}
+			e = snapContentAt(cs, prefix+n+"/", m, depth+1)
+			cs.Close()
+			if e != nil {
+				return e
+			}
 		}
 	}
-	return m, nil
+	return nil
 }
 
 type faultRun struct {
